@@ -43,6 +43,7 @@ structure SObj where
 
 inductive Frame where
   | move (a d : Nat)
+  | moveS (a : Nat)        -- move_object(string): the destination object is not known before the move reports back
   | hook (x : Nat)
   | dest (a : Nat)
   deriving Repr, BEq
@@ -70,6 +71,24 @@ def isDead (s : JState) (i : Nat) : Bool := s.dead.contains i
 def markDead (s : JState) (i : Nat) : JState := if isDead s i then s else { s with dead := i :: s.dead }
 
 def envKnown (s : JState) (i : Nat) : Option (Option Nat) := (s.envOf.find? (fun p => p.1 == i)).map (·.2)
+
+/-- sentinel: the object was moved to a destination named by a string; which object that is, is only known when the
+    move reports back -/
+def unkEnv : Nat := 1000000000
+
+/-- `i` is known (or possibly, when unknown) to be in `d` -/
+def envIs (s : JState) (i d : Nat) : Bool :=
+  match envKnown s i with
+  | some (some e) => e == d || e == unkEnv
+  | _ => false
+
+/-- somewhere up the announced environments of `d` there is an unknown one -/
+def envUnknownAbove (s : JState) : Nat → Nat → Bool
+  | 0, _ => false
+  | f + 1, d =>
+    d == unkEnv || (match envKnown s d with
+      | some (some e) => envUnknownAbove s f e
+      | _ => false)
 
 /-- `d` is `a` or lies inside `a` according to the announced relocations -/
 def insideKnown (s : JState) (a : Nat) : Nat → Nat → Bool
@@ -185,7 +204,7 @@ def judgeLine (s0 : JState) (line : String) : JState :=
         match s.pending with
         | some (a, d) =>
           let s := { s with pending := none }
-          if insideKnown s a 10000 d then s else s.flag s!"move-refused o{a} into o{d}: {line}"
+          if insideKnown s a 10000 d || envUnknownAbove s 10000 d then s else s.flag s!"move-refused o{a} into o{d}: {line}"
         | none => s
       | _ => commitMove s
     match ts with
@@ -214,12 +233,15 @@ def judgeLine (s0 : JState) (line : String) : JState :=
         let s :=
           if k == "init" then
             match s.frames, y with
+            | Frame.moveS a :: _, some y =>
+              let s := if isDead s a then s.flag s!"init-after-item-left string move of o{a}: {line}" else s
+              if x == a || y == a then s else s.flag s!"init-without-moved-object string move of o{a}: {line}"
             | Frame.move a d :: _, some y =>
-              let s := if envKnown s a == some (some d) && !isDead s a then s
+              let s := if envIs s a d && !isDead s a then s
                        else s.flag s!"init-after-item-left move o{a} into o{d}: {line}"
               if x == a || y == a then
                 let other := if x == a then y else x
-                if other == d || envKnown s other == some (some d) then s
+                if other == d || envIs s other d then s
                 else s.flag s!"init-with-object-outside-destination move o{a} into o{d}, other o{other}: {line}"
               else s.flag s!"init-without-moved-object move o{a} into o{d}: {line}"
             | _, _ => s.flag s!"init-outside-move {line}"
@@ -227,6 +249,7 @@ def judgeLine (s0 : JState) (line : String) : JState :=
             if s.frames.any (fun f => match f with | Frame.dest _ => true | _ => false) then s
             else s.flag s!"move_or_destruct-outside-destruct {line}"
           else if k == "act" then s   -- a command reached the action of a live object (checked above)
+          else if k == "id" then s    -- present() asks a live object
           else s.flag s!"unexpected-line {line}"
         { s with frames := Frame.hook x :: s.frames }
       | none => s.flag s!"unexpected-line {line}"
@@ -245,6 +268,40 @@ def judgeLine (s0 : JState) (line : String) : JState :=
         else s
       | _, _ => s.flag s!"unexpected-line {line}"
     | ["r", "mvarg", _, _] => s
+    | ["mvsb", a, _name] =>
+      match jOid a with
+      | some a =>
+        let s := stepEvent s
+        let s := if isDead s a then s.flag s!"destructed-reference-used move o{a}" else s
+        -- from here on the environment of a is unknown until the move reports back (or an error unwinds)
+        { s with frames := Frame.moveS a :: s.frames, envOf := (a, some unkEnv) :: s.envOf }
+      | none => s.flag s!"unexpected-line {line}"
+    | ["r", "mvs", a, _name, res, env] =>
+      match jOid a with
+      | some a =>
+        if res == "ok" then
+          match s.frames with
+          | Frame.moveS a' :: rest =>
+            if a == a' then
+              let s := { s with frames := rest }
+              let s := useLive s "environment" line (jOid env)
+              -- a destructed object must not have been linked into the room
+              let s := if isDead s a && (jOid env).isSome then s.flag s!"destructed-moved o{a}: {line}" else s
+              if env == "?" then s else { s with envOf := (a, jOid env) :: s.envOf }
+            else s.flag s!"frame-mismatch {line}"
+          | _ => s.flag s!"frame-mismatch {line}"
+        else s
+      | none => s.flag s!"unexpected-line {line}"
+    | ["r", "mvs", _a, _name, _res] => s
+    | ["r", "pr", e, t, v] =>
+      let s := stepEvent s
+      let s := useLive s "present" line (jOid v)
+      match jOid e, jOid v with
+      | some e, some r =>
+        let s := if jOid t == some r then s else s.flag s!"present-wrong-object {line}"
+        if envIs s r e then s else s.flag s!"present-outside-environment o{r} is not in o{e}: {line}"
+      | _, _ => s
+    | ["r", "fis", _name, v] => useLive (stepEvent s) "first_inventory" line (jOid v)
     | ["deb", a] =>
       match jOid a with
       | some a =>
